@@ -265,3 +265,108 @@ pub fn replay(ops_path: &str, impl_path: &str) -> Vec<String> {
     std::fs::write(impl_path, impl_out).unwrap();
     violations
 }
+
+fn permutations(n: usize) -> Vec<Vec<usize>> {
+    fn go(cur: &mut Vec<usize>, used: &mut Vec<bool>, n: usize, out: &mut Vec<Vec<usize>>) {
+        if cur.len() == n {
+            out.push(cur.clone());
+            return;
+        }
+        for i in 0..n {
+            if !used[i] {
+                used[i] = true;
+                cur.push(i);
+                go(cur, used, n, out);
+                cur.pop();
+                used[i] = false;
+            }
+        }
+    }
+    let mut out = Vec::new();
+    go(&mut Vec::new(), &mut vec![false; n], n, &mut out);
+    out
+}
+
+/// Exhaustive sibling-set campaign: every insertion order x every removal order (or `sample`
+/// random removal orders per insertion order when `sample > 0`) of `n` sibling names.
+pub fn perm_campaign(seed: u64, n: usize, sample: u64, ops_path: &str, impl_path: &str) -> Outcome {
+    let mut rng = Rng::new(seed);
+    let name_sets: &[&[&str]] = &[&["b", "D", "f", "h", "J", "l"], &["a", "bb", "B", "ccc", "Dd", "e"], &["x\u{e9}", "X\u{c9}y", "z", "\u{10400}", "\u{ffff}", "Z1"]];
+    let mut ops_out = String::new();
+    let mut impl_out = String::new();
+    let mut out = Outcome { ops: 0, histories: 0, hist: Default::default(), distinct: Default::default(), violations: vec![] };
+    let perms = permutations(n);
+    let mut hidx = 0u64;
+    for (si, set) in name_sets.iter().enumerate() {
+        for ins in perms.iter() {
+            let rems: Vec<Vec<usize>> = if sample == 0 {
+                perms.clone()
+            } else {
+                (0..sample).map(|_| perms[rng.below(perms.len() as u64) as usize].clone()).collect()
+            };
+            for rem in rems.iter() {
+                let parent = if (hidx % 3) == 0 { "/" } else { "/st" };
+                let mut lines: Vec<String> = vec![format!("create {}", if hidx % 2 == 0 { 3 } else { 4 })];
+                if parent != "/" {
+                    lines.push(format!("mkdir {}", enc(parent)));
+                }
+                let path = |i: usize| -> String { if parent == "/" { format!("/{}", set[i]) } else { format!("{}/{}", parent, set[i]) } };
+                for &i in ins {
+                    if (i + si) % 3 == 0 {
+                        lines.push(format!("mkdir {}", enc(&path(i))));
+                    } else {
+                        lines.push(format!("put {} {}", enc(&path(i)), hex(&pattern(10 + i * 37, i as u64))));
+                    }
+                }
+                lines.push(format!("ls {}", enc(parent)));
+                for (k, &j) in rem.iter().enumerate() {
+                    if (j + si) % 3 == 0 {
+                        lines.push(format!("rmdir {}", enc(&path(j))));
+                    } else {
+                        lines.push(format!("rm {}", enc(&path(j))));
+                    }
+                    if k % 2 == 0 {
+                        lines.push(format!("ls {}", enc(parent)));
+                    } else {
+                        lines.push("walk".to_string());
+                    }
+                    if k == 1 {
+                        lines.push(format!("reopen {}", if hidx % 2 == 0 { "strict" } else { "permissive" }));
+                    }
+                }
+                let mut real = Real::new();
+                let mut model = RefModel::new();
+                let mut hash: u64 = 1469598103934665603;
+                for (i, line) in lines.iter().enumerate() {
+                    for b in line.bytes() {
+                        hash = (hash ^ b as u64).wrapping_mul(1099511628211);
+                    }
+                    let observed = real.exec(line);
+                    let expected = model.apply(line);
+                    let kind = line.split(' ').next().unwrap().to_string();
+                    let okind: String = observed.split(' ').take(if observed.starts_with("err") { 2 } else { 1 }).collect::<Vec<_>>().join(" ");
+                    *out.hist.entry(format!("{}:{}", kind, okind)).or_insert(0) += 1;
+                    let mut dead = observed == "panic";
+                    if let Some(exp) = expected {
+                        if exp != observed {
+                            out.violations.push(format!("history {} (perm seed {}) step {}: {} gave {} but the abstract tree model says {}", hidx, seed, i, short(line), short(&observed), short(&exp)));
+                            dead = true;
+                        }
+                    }
+                    writeln!(ops_out, "{}", line).unwrap();
+                    writeln!(impl_out, "{} | {}", observed, catch(|| real.dirtable()).unwrap_or_else(|_| "-".into())).unwrap();
+                    out.ops += 1;
+                    if dead {
+                        break;
+                    }
+                }
+                out.histories += 1;
+                out.distinct.insert(hash);
+                hidx += 1;
+            }
+        }
+    }
+    std::fs::write(ops_path, ops_out).unwrap();
+    std::fs::write(impl_path, impl_out).unwrap();
+    out
+}
